@@ -83,6 +83,10 @@ def run_server(case):
         sv = serving.Server(ha=c09.HA, tymth=tymth)
     sv.ss = FakeListen()
     socks, closed = {}, []
+    records, wl = [], None
+    if case.get("wl"):
+        wl = c09.make_wl({"mode": 2, "rxed": True, "txed": True}, records)    # real WireLog, one shared memory buffer
+        sv.wl = wl
 
     def mk(i):
         sock = c09.FakeSock(False, ca_of(i), c09.HA)
@@ -90,8 +94,8 @@ def run_server(case):
         sock.on_close = lambda s: closed.append(s.ident)
         socks[i] = sock
         if tls:
-            return serving.RemoterTls(context=c09.FakeCtx(), ha=c09.HA, ca=ca_of(i), cs=sock, bs=16, tymth=tymth)
-        return serving.Remoter(ha=c09.HA, ca=ca_of(i), cs=sock, bs=16, tymth=tymth)
+            return serving.RemoterTls(context=c09.FakeCtx(), ha=c09.HA, ca=ca_of(i), cs=sock, bs=16, tymth=tymth, wl=wl)
+        return serving.Remoter(ha=c09.HA, ca=ca_of(i), cs=sock, bs=16, tymth=tymth, wl=wl)
 
     for i in case["ix0"]:
         r = mk(i)
@@ -135,7 +139,20 @@ def run_server(case):
     for s in socks.values():
         if s.misuse:
             raise AssertionError("fake socket misuse: %s" % s.misuse)
-    return {"passes": out}
+    obs = {"passes": out}
+    if wl is not None:
+        log = []
+        for _, b in records:
+            rec = ["bad", b.hex()]
+            for i in socks:
+                for r in c09.parse_records({"mode": 2}, [("shared", b)], str(ca_of(i)).encode()):
+                    if r[0] != "bad":
+                        rec = [r[0], i, r[1]]
+            log.append(rec)
+        obs["wlog"] = log
+        obs["moved"] = {str(i): [bytes(s.delivered).hex(), bytes(s.accepted).hex()] for i, s in socks.items()}
+        wl.close()
+    return obs
 
 
 def run_handshake(case):
@@ -223,6 +240,9 @@ def failures(case, obs):
                 if j is not None and op[1][j][0] == "err" and sn["calls"] >= j + 1:
                     got = sum(len(a[1]) // 2 for a in op[1][:j])
                     fault = ("recv", op[1][j][1], op[1][j][2], got)
+            answers = c09.op_answers(op)
+            if answers and all(c09.benign(kind, a) for a in answers) and sn["res"][0] != "ok":
+                out.append(("escape", "health", "-", 0, f"{kind}.{k}: only data / accept / would-block answers, yet {sn['res'][1]} escaped"))
             if fault and prev["cut"] and sn["res"][0] != "ok":
                 # servicing a connection already marked cutoff must not touch its socket at all
                 out.append(("after-cutoff", fault[0] + "-after-cutoff", fault[1], fault[2],
@@ -289,6 +309,18 @@ def failures(case, obs):
             tried = [e[0] for e in po["ixes"] if po["calls"][str(e[0])][1] == 1]
             cul = tried[-1] if tried else None
             a = io.get(cul, {}).get("send") if cul is not None else None
+            if cul is None:
+                # nothing was sent: the receive phase raised; the culprit is the last connection that was read
+                readers = [e[0] for e in po["ixes"] if po["calls"][str(e[0])][0] > 0]
+                rc = readers[-1] if readers else None
+                scr = io.get(rc) if rc is not None else None
+                j = first_stop(scr["recvs"]) if scr else None
+                if scr and j is not None and scr["recvs"][j][0] == "err" and po["calls"][str(rc)][0] >= j + 1:
+                    b = scr["recvs"][j]
+                    if in_domain("recv", kind, b[1], b[2]):
+                        out.append(("escape", "recv", b[1], b[2], f"Server.service raised {po['res'][1]} on receive fault {b[1]}:{b[2]} of connection {rc}"))
+                        continue
+                    a = b        # an unlisted code: outside the domain
             if a and a[0] == "err" and cut_before_send(cul):
                 pending = [e[0] for e in po["ixes"] if e[0] != cul and e[2] > 0 and po["calls"][str(e[0])][1] == 0]
                 out.append(("escape", "send-after-cutoff", a[1], a[2],
@@ -319,10 +351,18 @@ def failures(case, obs):
                     out.append(("unmarked", "handshake-remoter", h[1], h[2], f"pending connection {i}: fault {h[1]}:{h[2]} did not abort it"))
         before = dict(now)
         before["_cx"] = list(po["cxes"])
+    if "wlog" in obs:
+        if any(r[0] == "bad" for r in obs["wlog"]):
+            out.append(("wirelog", "wl", "-", 0, "wire log record not of the form Rx/Tx <connection address ca>"))
+        for i, (rx, tx) in obs["moved"].items():
+            lrx = "".join(r[2] for r in obs["wlog"] if r[0] == "rx" and str(r[1]) == i)
+            ltx = "".join(r[2] for r in obs["wlog"] if r[0] == "tx" and str(r[1]) == i)
+            if lrx != rx or ltx != tx:
+                out.append(("wirelog", "wl", "-", 0, f"connection {i}: wire log differs from the bytes actually received/sent"))
     # isolation: every connection evolves exactly as if it were the only one
     if not any_raise and not out and len(case["ix0"]) + len(case["cx0"]) > 1:
         for i in case["ix0"] + case["cx0"]:
-            sub = {"scene": "server", "tls": case["tls"], "single": case.get("single", False),
+            sub = {"scene": "server", "tls": case["tls"], "single": case.get("single", False), "wl": case.get("wl", False),
                    "ix0": [i] if i in case["ix0"] else [], "cx0": [i] if i in case["cx0"] else [],
                    "passes": [{"tx": [t for t in p.get("tx", []) if t[0] == i], "hs": [h for h in p.get("hs", []) if h[0] == i],
                                "io": [s for s in p.get("io", []) if s[0] == i]} for p in case["passes"]]}
@@ -425,6 +465,8 @@ def stream_case(kind, site, fl, code, wl=None):
     elif site == "recv":
         ops = [["tx", P1], ["recvs", [["data", "01"], ["data", "0203"], a, ["data", "04"]]], ["sends", ["acc", 3]],
                ["recvs", [["data", "05"]]]]
+    elif site == "recvdead":
+        ops = [["tx", P1], ["recvs", [["data", "01"], ["data", "0203", "dead"], a, ["data", "04"]]], ["sends", ["acc", 3]]]
     elif site == "recv0":
         ops = [["tx", P1], ["recvs", [a, ["data", "04"]]], ["sends", ["acc", 3]]]
     else:
@@ -439,6 +481,8 @@ def directed():
         for fl, code in codes_for(kind):
             for site in ("send", "recv", "recv0", "once"):
                 out.append(stream_case(kind, site, fl, code))
+            if (fl, code) in [("os", errno.ECONNRESET), ("os", errno.ETIMEDOUT), ("os", errno.EAGAIN), ("ssl", 2), ("ssl", 8)]:
+                out.append(stream_case(kind, "recvdead", fl, code, wl=c09.WL2))
     for client in (False, True):
         out.append({"scene": "handshake", "client": client, "h": ["done"]})
         for fl, code in codes_for("remotertls"):
@@ -460,6 +504,12 @@ def directed():
                                        {"tx": [[3, "ff"]], "io": [[1, good], [2, good], [3, good]]}]})
     for tls in (False, True):
         good = {"recvs": [["data", "0102"], ["data", "03"]], "send": ["acc", 4]}
+        for single in (False, True):
+            for tail in (["err", "os", errno.ECONNRESET], ["data", ""], c09.block_ans("remotertls" if tls else "remoter")):
+                bad = {"recvs": [["data", "aa"], ["data", "bbcc", "dead"], tail], "send": ["acc", 2]}
+                out.append({"scene": "server", "tls": tls, "wl": True, "single": single, "ix0": [1, 2, 3], "cx0": [],
+                            "passes": [{"tx": [[1, P1], [2, P1], [3, P1]], "io": [[1, good], [2, bad], [3, good]]},
+                                       {"tx": [[3, "ff"]], "io": [[1, good], [2, {"recvs": [["err", "os", errno.ECONNRESET]], "send": ["acc", 1]}], [3, good]]}]})
         for stop in (["data", ""], ["err", "os", errno.ECONNRESET], ["err", "os", errno.ETIMEDOUT]):
             for late in (["err", "os", errno.EPIPE], ["err", "os", errno.ECONNRESET], ["acc", 3]):
                 for pos in (1, 2):
@@ -518,7 +568,11 @@ def gen_server(rng):
             recvs = []
             for _ in range(rng.choice([0, 1, 2, 3])):
                 r = rng.random()
-                if r < 0.7:
+                if r < 0.07:
+                    recvs.append(["data", c09.hx(rng, rng.randint(1, 16)), "dead"])     # readable although the peer reset ...
+                    recvs.append(rng.choice([["err", "os", errno.ECONNRESET], ["data", ""]]))   # ... which the next recv reports
+                    break
+                elif r < 0.7:
                     recvs.append(["data", c09.hx(rng, rng.randint(1, 16))])
                 elif r < 0.8:
                     recvs.append(c09.block_ans(kind, rng.randrange(2)))
@@ -542,6 +596,8 @@ def gen_server(rng):
     case = {"scene": "server", "tls": tls, "ix0": ix0, "cx0": cx0, "passes": passes}
     if rng.random() < 0.2:
         case["single"] = True
+    if rng.random() < 0.5:
+        case["wl"] = True
     return case
 
 
@@ -560,7 +616,8 @@ def gen_stream(rng):
             else:
                 ops.append(["sends", ["acc", rng.choice([0, 1, 3, 9, 50])]])
         elif r < 0.85:
-            recvs = [["data", c09.hx(rng, rng.randint(1, 16))] for _ in range(rng.choice([0, 1, 2]))]
+            recvs = [["data", c09.hx(rng, rng.randint(1, 16))] + (["dead"] if rng.random() < 0.1 else [])
+                     for _ in range(rng.choice([0, 1, 2]))]
             if rng.random() < 0.5:
                 fl, code = rng.choice(dom) if rng.random() < 0.8 else rng.choice(codes_for(kind))
                 recvs.append(["err", fl, code])
